@@ -10,7 +10,8 @@ beyond `propext`), i.e. on the WHOLE space: 3 200 flag vectors × 12 scenarios.
 namespace Vore.Cli
 
 def allBool (p : Bool → Bool) : Bool := p true && p false
-def allModeArg (p : ModeArg → Bool) : Bool := p .absent && p .new && p .nothing && p .overwrite && p .bogus
+def allModeArg (p : ModeArg → Bool) : Bool := p .absent && p .new && p .nothing && p .overwrite && p .bogus &&
+  p .empty && p .lower && p .confirm
 def allFileSet (p : FileSet → Bool) : Bool := p .absent && p .one && p .several && p .glob && p .noneMatching
 def allProgKind (p : ProgKind → Bool) : Bool := p .find && p .replace && p .failing
 
@@ -33,12 +34,15 @@ theorem allModeArg_iff (p : ModeArg → Bool) : allModeArg p = true ↔ ∀ x, p
   constructor
   · intro h x; simp only [allModeArg, Bool.and_eq_true] at h
     cases x
-    · exact h.1.1.1.1
+    · exact h.1.1.1.1.1.1.1
+    · exact h.1.1.1.1.1.1.2
+    · exact h.1.1.1.1.1.2
+    · exact h.1.1.1.1.2
     · exact h.1.1.1.2
     · exact h.1.1.2
     · exact h.1.2
     · exact h.2
-  · intro h; simp only [allModeArg, Bool.and_eq_true]; exact ⟨⟨⟨⟨h _, h _⟩, h _⟩, h _⟩, h _⟩
+  · intro h; simp only [allModeArg, Bool.and_eq_true]; exact ⟨⟨⟨⟨⟨⟨⟨h _, h _⟩, h _⟩, h _⟩, h _⟩, h _⟩, h _⟩, h _⟩
 
 theorem allFileSet_iff (p : FileSet → Bool) : allFileSet p = true ↔ ∀ x, p x = true := by
   constructor
@@ -85,6 +89,7 @@ documented `-replace-mode` table with default NEW; `OpenFile` creates the file a
 for writing; the old content is discarded (by `O_TRUNC`, by `Truncate`, or both) -/
 def docEnv (truncOpen truncCall : Bool) : Env :=
   { mAbsent := some .new, mNew := some .new, mNothing := some .nothing, mOverwrite := some .overwrite, mBogus := none,
+    mEmpty := some .new, mLower := none, mConfirm := none,
     creates := true, writable := true, truncOpen := truncOpen, truncCall := truncCall }
 
 def docEnvs : List Env := [docEnv true true, docEnv true false, docEnv false true]
